@@ -17,6 +17,13 @@
 //	                                            default (wildcard) interface is configured;
 //	                                            otherwise returns to the caller, no endpoint chain
 //
+// Felix flattens its endpoint map into a name list in Go map-iteration order (any order, with
+// duplicates anywhere).  For about half of the iptables cases the check draws that order from the
+// case PRNG and calls the name-list level of the renderer through the verif hook
+// rules.VerifInterfaceNameDispatchChains (end rules taken from the real WorkloadDispatchChains);
+// 30% of the cases have the shape "one short name reported by 2-3 endpoints that is a proper
+// prefix of every other name".  The public map API is used for the other cases and for nftables.
+//
 // Probes: every name, proper prefixes of names, every name +- one character (extended, cut,
 // last character changed), random names with the workload prefix, unrelated names.
 //
@@ -211,6 +218,23 @@ func run(c *harness.Case) {
 	if c.R.Intn(25) == 0 {
 		wlNames = nil // no workloads at all: everything must be dropped
 	}
+	// A dedicated share of cases: one short name that is a proper prefix of ALL the other names
+	// and is reported by two or three endpoints (duplicates), the others extending it.
+	dupShape := c.R.Intn(10) < 3
+	stem := ""
+	if dupShape {
+		stem = wlPrefixes[0] + randSuffix(c, 1+c.R.Intn(2), "0123456789ab")
+		seen := map[string]bool{stem: true}
+		wlNames = []string{stem}
+		for i, k := 0, 2+c.R.Intn(7); i < k; i++ {
+			nm := stem + randSuffix(c, 1+c.R.Intn(15-len(stem)), []string{"ab", "0123456789abcdef", nameChars}[c.R.Intn(3)])
+			if !seen[nm] {
+				seen[nm] = true
+				wlNames = append(wlNames, nm)
+			}
+		}
+		c.Count("dup_prefix_shape_cases", 1)
+	}
 	hostNames := genNames(c, []string{"eth", "en", "bond0.", ""}[c.R.Intn(4)], 1+c.R.Intn(8))
 	// make sure no host name looks like a workload interface
 	var hn []string
@@ -242,13 +266,29 @@ func run(c *harness.Case) {
 
 	// the endpoints map; a duplicate interface name (two endpoints, one interface) now and then
 	eps := map[types.WorkloadEndpointID]*proto.WorkloadEndpoint{}
+	var orderedNames []string
 	for i, name := range wlNames {
 		eps[types.WorkloadEndpointID{OrchestratorId: "k8s", WorkloadId: fmt.Sprintf("ns/pod-%d", i), EndpointId: "eth0"}] = &proto.WorkloadEndpoint{Name: name}
+		dups := 0
 		if c.R.Intn(15) == 0 {
-			eps[types.WorkloadEndpointID{OrchestratorId: "k8s", WorkloadId: fmt.Sprintf("ns/dup-%d", i), EndpointId: "eth0"}] = &proto.WorkloadEndpoint{Name: name}
+			dups = 1
+		}
+		if dupShape && name == stem {
+			dups = 1 + c.R.Intn(2)
+		}
+		for d := 0; d < dups; d++ {
+			eps[types.WorkloadEndpointID{OrchestratorId: "k8s", WorkloadId: fmt.Sprintf("ns/dup-%d-%d", i, d), EndpointId: "eth0"}] = &proto.WorkloadEndpoint{Name: name}
+			orderedNames = append(orderedNames, name)
 			c.Count("duplicate_names", 1)
 		}
+		orderedNames = append(orderedNames, name)
 	}
+	// Felix flattens the endpoint map into a name list in Go map-iteration order, i.e. in ANY
+	// order; the check draws that order from the case's PRNG (replayable) and hands the list to
+	// the name-list level of the renderer through the verif hook in about half of the iptables
+	// cases (always for the duplicate-prefix shape); the public map API covers the rest.
+	c.R.Shuffle(len(orderedNames), func(i, j int) { orderedNames[i], orderedNames[j] = orderedNames[j], orderedNames[i] })
+	useHook := dupShape || c.R.Intn(2) == 0
 	heps := map[string]types.HostEndpointID{}
 	for i, name := range hostNames {
 		heps[name] = types.HostEndpointID{EndpointId: fmt.Sprintf("hep-%d", i)}
@@ -305,7 +345,19 @@ func run(c *harness.Case) {
 		// ---- workload dispatch
 		{
 			rs, tbl := newRS()
-			chains := renderer.WorkloadDispatchChains(eps)
+			var chains []*generictables.Chain
+			if useHook && !nft {
+				// the end rules are taken from the real renderer (an empty endpoint map renders
+				// root chains that consist of the end rules only)
+				empty := renderer.WorkloadDispatchChains(map[types.WorkloadEndpointID]*proto.WorkloadEndpoint{})
+				end := empty[0].Rules
+				chains = renderer.(*rules.DefaultRuleRenderer).VerifInterfaceNameDispatchChains(append([]string(nil), orderedNames...),
+					rules.WorkloadFromEndpointPfx, rules.WorkloadToEndpointPfx, rules.ChainFromWorkloadDispatch, rules.ChainToWorkloadDispatch, end, end)
+				c.Count("name_list_renders_iptables", 1)
+			} else {
+				chains = renderer.WorkloadDispatchChains(eps)
+				c.Count("map_api_renders_"+fl, 1)
+			}
 			nr := 0
 			for _, ch := range chains {
 				nr += len(ch.Rules)
@@ -386,7 +438,7 @@ func run(c *harness.Case) {
 		}
 
 		detail := func(ps *probeSet, extra map[string]any) map[string]any {
-			d := map[string]any{"renderer": fl, "what": ps.what, "workload_prefixes": wlPrefixes, "workload_names": wlNames, "host_names": hostNames,
+			d := map[string]any{"renderer": fl, "what": ps.what, "workload_prefixes": wlPrefixes, "workload_names": wlNames, "names_in_input_order": orderedNames, "name_list_api": useHook, "host_names": hostNames,
 				"default_iface": defaultIface, "host_variant": hostVariant, "rendered": ps.rs.Dump()}
 			for k, v := range extra {
 				d[k] = v
@@ -521,12 +573,13 @@ func main() {
 		ID:    "C10",
 		Level: "exploration",
 		Rule: "one set of 1-200 workload interface names per case (prefixes cali / cali+tap / c; small alphabets so that names share prefixes, names that are prefixes of others, one-character suffixes, duplicates, lengths up to 15; sometimes none) plus 0-8 host interface names and an optional wildcard host endpoint; " +
-			"workload dispatch (chains; for nftables the verdict maps through the real table layer) and one of the four host dispatch variants, both renderers; " +
+			"30% of the cases: one short name reported by 2-3 endpoints that is a proper prefix of all other names, names handed over in PRNG order through the name-list level of the renderer; workload dispatch (chains; for nftables the verdict maps through the real table layer) and one of the four host dispatch variants, both renderers; " +
 			"probes = every name, proper prefixes, every name +-1 character, random workload-prefixed names, unrelated names; " +
 			"non-trivial = at least one probe equal to a known name; distinct by the name sets",
 		Assumptions: []string{
 			"internal/nfsim walks the rendered text (iptables -i/-o with + wildcard, nft iifname/oifname with * wildcard and `vmap @map` lookups: no element = rule does not match); trusted interpreter",
 			"endpoint chains are empty stand-ins (their content is C09's subject); which chain is entered is read from the walk",
+			"the order in which Felix's endpoint map is flattened into a name list (Go map iteration) is drawn from the case PRNG and applied through the verif hook rules.VerifInterfaceNameDispatchChains = interfaceNameDispatchChains; the end rules come from the real WorkloadDispatchChains",
 			"chain names come from the real rules.EndpointChainName; names are <= 15 characters so they are never hashed",
 		},
 		Cases: cases,
@@ -544,6 +597,9 @@ func main() {
 			"probes_unknown_workload_nft":      10000,
 			"probes_to_wildcard_iptables":      1000,
 			"probes_host_fallthrough_iptables": 1000,
+			"dup_prefix_shape_cases":           100,
+			"name_list_renders_iptables":       200,
+			"map_api_renders_iptables":         100,
 		},
 	})
 }
